@@ -125,6 +125,88 @@ def run(ctx):
                "reporting a variable additionally depends on %s" % other_guards, tv.loc)
         fu = prog.fn(M + "find_undeclared")
         ctx.ob("C18.W3.result-comes-from-the-tracker", tag + fu.path, bool(fu.calls_to(M + "track_walk")), "", fu.loc)
+        # ---- W5: implicit names.  The tracker pre-assigns a few names by constant (`loop`, `caller`, `self`, `super`)
+        # and the macro's own name.  A name may only be treated as assigned where the engine really binds a variable
+        # of that name *before* the code in question runs:
+        #   - the constant must be a name the interpreter stores (`Context::store(.., "caller", ..)`, the loop
+        #     object's "loop" key); `self` / `super` are special only in call position and are plain context lookups
+        #     otherwise;
+        #   - `loop` is bound for the loop body only: the loop filter runs in a pre-pass without it;
+        #   - the macro's name is stored after the macro value is built (its closure is captured first).
+        ENGINE_BOUND = {"loop": ("minijinja/src/vm/context.rs", "loop object stored in the loop frame"),
+                        "caller": ("minijinja/src/vm/mod.rs", "stored into the macro's frame when called by a call block")}
+        ASSIGN = M + "AssignmentTracker::assign"
+        tw = prog.fn(M + "track_walk")
+        def cstr(f_, op_):
+            vs = {o.const.get("str") for o in flow.origins(f_, op_) if o.kind == "const" and "str" in o.const}
+            return vs.pop() if len(vs) == 1 else None
+        const_assigns = []
+        for f in mt:
+            for c in f.calls_to(ASSIGN):
+                nm = cstr(f, c.args[1])
+                if nm is not None:
+                    const_assigns.append((f, c, nm))
+        ctx.floor("C18.W5 names pre-assigned by constant" + tag, len(const_assigns), 2)
+        for f, c, nm in const_assigns:
+            bound = False
+            if nm in ENGINE_BOUND:
+                src_file = ENGINE_BOUND[nm][0]
+                import json as _json
+                for g in prog.fns.values():
+                    if g.loc.f.endswith(src_file) and ('"str": "%s"' % nm) in _json.dumps(g.raw):
+                        bound = True
+            ctx.ob("C18.W5.pre-assigned-name-is-bound-by-the-engine", "%s%s|%s" % (tag, f.path.split("::")[-1], nm), bound,
+                   "the tracker treats `%s` as assigned, but the interpreter never binds a variable of that name (it is "
+                   "special in call position only): `{{ %s }}` is a context lookup that is not reported" % (nm, nm),
+                   f.where(c.bb))
+        # implicit names live in the scope of their construct: the pre-assignment happens after the tracker opened a
+        # scope for it (in the same function, or in every tracker function that calls it), so the name is forgotten
+        # when the construct ends
+        PUSHS = M + "AssignmentTracker::push"
+        for f, c, nm in const_assigns:
+            own = [k for k in f.calls_to(PUSHS) if cfg.dominates(f, k.bb, c.bb)]
+            ok_scope = bool(own)
+            if not own:
+                sites = [k for g in mt if g is not f for k in g.calls_to(f.path)]
+                sites = [k for k in sites if k.fn.path != M + "find_macro_closure"]
+                ok_scope = bool(sites) and all(any(cfg.dominates(k.fn, p_.bb, k.bb) for p_ in k.fn.calls_to(PUSHS)) for k in sites)
+            ctx.ob("C18.W5.pre-assigned-name-is-scoped-to-its-construct", "%s%s|%s" % (tag, f.path.split("::")[-1], nm), ok_scope,
+                   "`%s` is pre-assigned outside the scope the tracker opens for the construct: it stays assigned after the "
+                   "construct ends, and a later read of a context variable with that name is not reported" % nm, f.where(c.bb))
+        STMT = AST + "Stmt"
+        sw_ = arms.enum_switches(prog, tw, STMT)
+        if sw_:
+            regs_ = arms.arm_regions(prog, tw, sw_[0][0], STMT)
+            fl_reg = regs_.get("ForLoop", set())
+            la = [c for f, c, nm in const_assigns if f is tw and nm == "loop" and c.bb in fl_reg]
+            fv = []
+            for c in tw.calls():
+                if c.bb in fl_reg and c.name in (M + "tracker_visit_expr_opt", M + "tracker_visit_expr"):
+                    if any("filter_expr" in o.proj for o in flow.origins(tw, c.args[0])):
+                        fv.append(c)
+            if la and fv:
+                wrong = any(cfg.dominates(tw, a.bb, v.bb) for a in la for v in fv)
+                ctx.ob("C18.W5.loop-is-not-assigned-before-the-loop-filter", tag + "ForLoop|loop<-filter_expr", not wrong,
+                       "the tracker assigns `loop` before it visits the loop filter; the filter runs in a pre-pass in "
+                       "which `loop` is not bound, so `{% for x in xs if loop.index %}` looks `loop` up in the context "
+                       "without it being reported", tw.where(la[0].bb))
+            if "Macro" in regs_:
+                mreg = regs_["Macro"]
+                na = [c for c in tw.calls_to(ASSIGN) if c.bb in mreg and any("name" in o.proj for o in flow.origins(tw, c.args[1]))]
+                mv = [c for c in tw.calls_to(M + "tracker_visit_macro") if c.bb in mreg]
+                cm = prog.fns.get(G + "compile_macro")
+                if na and mv and cm is not None:
+                    built = cm.calls_to(G + "compile_macro_expression")
+                    stores = [c for c in cm.calls() if c.name in (G + "add", G + "add_with_span") and any(
+                        o.kind == "agg" and o.rv.get("variant") == "StoreLocal" for o in flow.origins(cm, c.args[1]))]
+                    engine_builds_first = bool(built) and bool(stores) and all(cfg.dominates(cm, b.bb, s_.bb) for b in built for s_ in stores)
+                    tracker_assigns_first = any(cfg.dominates(tw, a.bb, v.bb) for a in na for v in mv)
+                    ctx.ob("C18.W5.macro-name-is-not-assigned-before-its-closure-is-captured", tag + "Macro|name<-body",
+                           not (engine_builds_first and tracker_assigns_first),
+                           "the engine builds the macro (capturing the free names of its body, which looks them up) before "
+                           "it stores the macro under its name, but the tracker assigns the name first: a macro that "
+                           "mentions its own name makes the render look that name up in the context unreported",
+                           tw.where(na[0].bb))
         # W4: the public entry points report what the walker found - on every path.  A return that does not pass
         # the walker (an "obviously empty" fast path decided from something else than the AST, e.g. the root
         # instruction stream, which does not contain block bodies) omits variables.
